@@ -3,6 +3,7 @@
   See notes/C18.md.
 -/
 import Gozod.Model.Msg
+import Gozod.Model.MsgExpect
 import Gozod.Model.Config
 import Gozod.Gen.MsgWiring
 import Gozod.Gen.LocaleTable
@@ -72,61 +73,14 @@ theorem firstConfigured_inter (passes cfg : SrcSet) (h : cfg.subset passes = tru
   cases a <;> cases b <;> cases c <;> cases d <;> cases e <;>
   cases a' <;> cases b' <;> cases c' <;> cases d' <;> cases e' <;> decide
 
-/-! ### The gaps: sources a leaf's code does not hand to FinalizeIssue (open known findings,
-    keyed `wire:<leaf>:missing-<sources>` in known-findings.txt) -/
+/-! ### The gaps: sources a leaf's code does not hand to FinalizeIssue (open known findings, keyed
+    `wire:<leaf>:missing-<sources>` in known-findings.txt) are listed in `Model/MsgExpect.lean` (`gaps`, `positionGaps`):
+    hand-written expectation, not read off the running code. -/
 
-/-- leaf ↦ sources that do not reach FinalizeIssue there (in every wrapper) -/
-def gaps : List (String × SrcSet) := [
-  -- the schema's own message is not consulted for issues raised by its checks
-  ("small-string", .ofString "s"),
-  ("big-string", .ofString "s"),
-  ("small-int", .ofString "s"),
-  ("big-int", .ofString "s"),
-  ("small-float", .ofString "s"),
-  ("small-map", .ofString "s"),
-  ("small-record", .ofString "s"),
-  ("format-email", .ofString "s"),
-  ("format-regex", .ofString "s"),
-  ("format-starts", .ofString "s"),
-  ("format-includes", .ofString "s"),
-  ("format-json", .ofString "s"),
-  ("multiple-int", .ofString "s"),
-  ("multiple-float", .ofString "s"),
-  ("small-set", .ofString "s"),
-  ("format-lowercase", .ofString "s"),
-  ("small-string-length", .ofString "s"),
-  ("small-int-positive", .ofString "s"),
-  -- the same on derived inputs (prefault / coerced / overwritten values)
-  ("small-string-prefault", .ofString "s"),
-  ("small-int-prefault", .ofString "s"),
-  ("small-string-coerced", .ofString "s"),
-  ("small-string-trimmed", .ofString "s"),
-  ("small-slice-prefault", .ofString "s"),
-  -- (Array, Literal, Union, Xor, DiscriminatedUnion, IPv4, URL ignored their constructor message until 453f053, 67fecb7,
-  --  455c79d, 3f5a91c: no entry any more)
-  -- container-level issues (the per-parse map reaches them since 7990727; the schema's own message still does not)
-  ("small-slice", .ofString "s"),
-  ("big-slice", .ofString "s"),
-  ("small-slice-nonempty", .ofString "s"),
-  ("big-array-length", .ofString "s"),
-  ("keys-strict-object", .ofString "s"),
-  -- issues raised with a preset message: nothing is consulted
-  ("type-field-missing", .ofString "spgl"),
-  ("value-enum", .ofString "pgl"),
-  ("custom-refine-string", .ofString "spgl"),
-  ("custom-refine-int", .ofString "spgl"),
-  ("custom-refine-object", .ofString "spgl"),
-  ("custom-refine-slice", .ofString "spgl")]
-
-def gapOf (leaf : String) : SrcSet := (gaps.lookup leaf).getD SrcSet.empty
-
-/-- a position that does not forward the caller's context to the schema nested in it (regenerated `Gen.positions`: today
-    none; before eac1fcf the KEY schema of a record — types/record.go parseSchemaValueAny parsed the key without the context,
-    finding `wire:@record-key:missing-p`) loses the per-parse map for every issue below it -/
+/-- a position that does not forward the caller's context loses the per-parse map for every issue below it (expected:
+    `Msg.positionGaps`, today none) -/
 def posGap (wrapper : String) : SrcSet :=
-  match Gozod.Gen.positions.find? (fun p => p.name == wrapper) with
-  | some p => if p.forwardsCtx then SrcSet.empty else .ofString "p"
-  | none => SrcSet.empty
+  if expectedForwards wrapper then SrcSet.empty else .ofString "p"
 
 def SrcSet.union (a b : SrcSet) : SrcSet :=
   ⟨a.check || b.check, a.schema || b.schema, a.parse || b.parse, a.custom || b.custom, a.locale || b.locale⟩
@@ -221,8 +175,6 @@ theorem dropSources_unconfigured {ρ : Type} (d : SrcSet) (s : Sources ρ)
     * `spgl` a message is written before the chain runs (Enum, missing object field, foreign error texts) -/
 def siteGaps : List (String × SrcSet) := [
   ("internal/checks/factory.go:executePropertyCheck:ParseAny", .ofString "p"),
-  ("internal/engine/modifiers.go:processModifiersCore:CreateNonOptionalError", .ofString "s"),
-  ("internal/engine/modifiers.go:processModifiersCore:CreateInvalidTypeError", .ofString "s"),
   ("internal/engine/parser.go:ParseComplexStrict:CreateInvalidTypeError", .ofString "s"),
   ("internal/engine/parser.go:handleNilPointer:CreateInvalidTypeError", .ofString "s"),
   ("internal/engine/parser.go:handleNilComplex:CreateInvalidTypeError", .ofString "s"),
@@ -457,6 +409,77 @@ theorem c18_positions_exact : ∀ s ∈ Gozod.Gen.sites, positionOk s = true := 
 example : nestedMessage (ρ := Unit) SrcSet.empty [⟨"slice-element", true⟩, ⟨"record-key", false⟩, ⟨"lazy", true⟩]
     { rawMsg := "", inst := none, parse := some (fun _ => "p"), custom := some (fun _ => "g"), locale := none, dflt := fun _ => "d" } ()
     = "g" := by decide
+
+/-! ## Observed tables = hand-written expectation (audit M6); every depth over the EXECUTED definition (audit H3) -/
+
+/-- what the expectation says a site passes: every applicable source outside the listed gap of the leaf / the position -/
+def expectedPasses (s : Site) : SrcSet := s.applicable.diff (gapAt s)
+
+/-- … when the check's message function declines the issue -/
+def expectedPassesSilent (s : Site) : SrcSet :=
+  { s.applicable.diff (SrcSet.union (gapSilentCheckOf s.leaf) (posGap s.wrapper)) with check := false }
+
+/-- **c18_observed_eq_expected** (decided over the regenerated wiring, both directions): at every site the sources observed
+    to reach FinalizeIssue are EXACTLY the applicable sources minus the listed gap — no site drops more than its open finding
+    says (soundness) and every listed gap is really dropped there (tightness: a stale entry of `gaps` breaks this proof). -/
+theorem c18_observed_eq_expected :
+    ∀ s ∈ Gozod.Gen.sites, (s.passes == expectedPasses s && s.passesSilentCheck == expectedPassesSilent s) = true := by
+  decide +kernel
+
+/-- **c18_positions_forward**: the observed forwarding of every position of the run is the expected one (all forward) -/
+theorem c18_positions_forward : ∀ p ∈ Gozod.Gen.positions, p.forwardsCtx = expectedForwards p.name := by
+  decide +kernel
+
+/-- **c18_gaps_tight**: every entry of `gaps` names a leaf of the run, sources that are applicable there, and none of them
+    is observed to pass at top level — each listed gap has its witness in the regenerated table -/
+theorem c18_gaps_tight :
+    (gaps.all fun g => Gozod.Gen.sites.any fun s =>
+      s.leaf == g.1 && s.wrapper == "top" && g.2.subset s.applicable && (s.passes.inter g.2 == SrcSet.empty)) = true := by
+  decide +kernel
+
+/-- the full statement is false on the regenerated table itself (no hand-written snapshot) -/
+theorem c18_wired_full_false_table : ¬ c18_wired_full := by
+  unfold c18_wired_full
+  decide +kernel
+
+theorem expected_positions_forward (chain : List String) :
+    (chain.map expectedPosition).all (·.forwardsCtx) = true := by
+  simp [expectedPosition, expectedForwards, positionGaps]
+
+/-- **expected_message_eq**: what the driver computes for a cell below ANY chain (`expectedMessage` = `nestedMessage` with the
+    expected forwarding) is FinalizeIssue on the sources outside the leaf's gap -/
+theorem expected_message_eq {ρ : Type} (drops : SrcSet) (chain : List String) (s : Sources ρ) (iss : ρ) (h : s.dflt iss ≠ "") :
+    expectedMessage drops chain s iss = finalize (dropSources drops s) iss := by
+  unfold expectedMessage
+  rw [nested_message _ _ _ _ h, expected_positions_forward]
+  simp
+
+/-- **c18_every_depth_expected**: for every leaf of the run whose gap is empty, below every chain of positions and for
+    arbitrary error maps, the message the driver predicts (and the run compares with the library's, cell by cell) is the first
+    non-empty of the five sources — "at every nesting depth", about the definition that is executed -/
+theorem c18_every_depth_expected {ρ : Type} (leaf : String) (hleaf : gapOf leaf = SrcSet.empty) (chain : List String)
+    (s : Sources ρ) (iss : ρ) (h : s.dflt iss ≠ "") :
+    expectedMessage (gapOf leaf) chain s iss
+      = firstNonEmpty [s.rawMsg, app s.inst iss, app s.parse iss, app s.custom iss, app s.locale iss] (s.dflt iss) := by
+  rw [expected_message_eq _ _ _ _ h, hleaf, dropSources_empty, finalize_priority]
+
+/-- … and for a leaf WITH a gap as long as the gap's sources are not configured -/
+theorem c18_every_depth_expected_gap {ρ : Type} (leaf : String) (chain : List String) (s : Sources ρ) (iss : ρ)
+    (h : s.dflt iss ≠ "")
+    (hc : (gapOf leaf).check = true → s.rawMsg = "") (hs : (gapOf leaf).schema = true → s.inst = none)
+    (hp : (gapOf leaf).parse = true → s.parse = none) (hg : (gapOf leaf).custom = true → s.custom = none)
+    (hl : (gapOf leaf).locale = true → s.locale = none) :
+    expectedMessage (gapOf leaf) chain s iss
+      = firstNonEmpty [s.rawMsg, app s.inst iss, app s.parse iss, app s.custom iss, app s.locale iss] (s.dflt iss) := by
+  rw [expected_message_eq _ _ _ _ h, dropSources_unconfigured _ _ hc hs hp hg hl, finalize_priority]
+
+/-- the leaves of the regenerated table without a gap (the hypothesis of `c18_every_depth_expected` is inhabited by most) -/
+theorem c18_gapless_leaves :
+    (Gozod.Gen.topPasses.filter fun t => gapOf t.1 == SrcSet.empty).length ≥ 20 := by
+  decide +kernel
+
+example : gapOf "type-string" = SrcSet.empty ∧
+    expectedWire (gapOf "type-string") ["slice-element", "record-key", "lazy"] (.ofString "pg") = "p" := by decide
 
 /-! ## Locales -/
 
